@@ -623,6 +623,8 @@ func r5cont(c *core.Ctx, nbe *core.Fn) {
 				case cs.Expr != nil && pat.Expr("_l.lastReadCount").Match(info, cs.Expr, nil) != nil:
 					if b.e.AnyUnder(cs.Sites, partial) {
 						nk++
+					} else if b.e.AnyUnder(cs.Sites, b.remainNonZero()) {
+						bad = append(bad, "the pair count is stored only while pairs remain: the last chunk of a split hash gets 0")
 					} else if b.e.AnyUnder(cs.Sites, complete) {
 						bad = append(bad, "the pair count is stored for a complete value")
 					} else {
@@ -641,6 +643,10 @@ func r5cont(c *core.Ctx, nbe *core.Fn) {
 						n0++
 					case isC && v == 0 && b.e.AnyUnder(cs.Sites, partial):
 						bad = append(bad, "0 is stored for a chunk")
+					case isC && v == 0 && b.e.AnyUnder(cs.Sites, b.remainZero()):
+						// remainMember == 0 after the value was read holds for a complete value
+						// and for the last chunk of a split hash alike
+						bad = append(bad, "0 is stored whenever no pairs remain, which includes the last chunk of a split hash (its pair count is lost)")
 					case isC && v == 0:
 						undec = append(undec, "RealMemberCount = 0 on a path where completeness is not tested")
 					default:
